@@ -7,8 +7,9 @@ import json, os, sys, time, hashlib, re, traceback, fnmatch
 
 VERIF = os.path.dirname(os.path.dirname(os.path.abspath(__file__)))
 REPO = os.environ.get('VERIF_REPO', '/repo')
-EVID = os.path.join(VERIF, 'evidence')
-REPLAYS = os.path.join(VERIF, 'replays')
+# runs against seeded changes (tools/seedtest.py) redirect evidence and replays so that the committed evidence only ever comes from /repo itself
+EVID = os.environ.get('VERIF_EVIDENCE_DIR') or os.path.join(VERIF, 'evidence')
+REPLAYS = os.environ.get('VERIF_REPLAYS_DIR') or os.path.join(VERIF, 'replays')
 KNOWN = os.path.join(VERIF, 'known_findings.json')
 
 EXIT_OK, EXIT_VIOLATION, EXIT_HARNESS = 0, 1, 2
